@@ -179,7 +179,7 @@ def run_case(spec):
 
 
 def run():
-    chk = Check("C17", props_modules=["GFO.Props.C17", "GFO.Props.SmboRuns"])
+    chk = Check("C17", props_modules=["GFO.Props.C17", "GFO.Props.SmboRuns", "GFO.Props.DirectSelect"])
     chk.build_and_audit()
     r = C.rng("C17")
     quick = C.tier() != "thorough"
@@ -223,4 +223,5 @@ def run():
     scen.shutdown_manager()
     from . import localgen
     localgen.add_smbo_to(chk, C.rng("C17-smbo"), C.T(6, 40), constraint_p=0.4, nonfinite_p=0.3)
+    localgen.add_direct_to(chk, C.rng("C17-direct"), C.T(20, 200), constraint_p=0.4, nonfinite_p=0.2)
     return chk.finish()
